@@ -53,7 +53,7 @@ class C10(Check):
                    'every module with an injected error, and no configured value has reached any driver',
                    'values are compared in wire form by the harness\' own conversion']
     PROBES = ('c10.good-config', 'c10.bad-config', 'c10.multi-file', 'c10.limits-overridden', 'c10.write-configured',
-              'c10.several-errors', 'c10.restart') + tuple(f'c10.err.{k}' for k in ERROR_KINDS)
+              'c10.several-errors', 'c10.restart', 'c10.internal-write-probe') + tuple(f'c10.err.{k}' for k in ERROR_KINDS)
 
     def gen_case(self, rng, tier):
         specs = []
@@ -88,8 +88,15 @@ class C10(Check):
                         lo = p['di'].get('min', -1000.0)
                         hi = p['di'].get('max', lo + 2000.0)
                         if hi - lo > 1e-6 and hi < 1e300 and lo > -1e300:
-                            nlo = lo + (hi - lo) * 0.25
-                            nhi = lo + (hi - lo) * 0.75
+                            if rng.random() < 0.5:
+                                nlo = lo + (hi - lo) * 0.25
+                                nhi = lo + (hi - lo) * 0.75
+                            else:
+                                # the configuration may also widen the range the class declares
+                                nlo = lo - (hi - lo) * 0.25
+                                nhi = hi + (hi - lo) * 0.25
+                                if e['value'] is not None and rng.random() < 0.5:
+                                    e['value'] = rng.choice([nlo + (hi - lo) * 0.1, nhi - (hi - lo) * 0.1])
                             e['props']['min'] = nlo
                             e['props']['max'] = nhi
                             e['style'] = 'param'
@@ -295,9 +302,20 @@ class C10(Check):
                         exp = genmod_expname(p['name'])
                         lo, hi = e['props']['min'], e['props']['max']
                         span = hi - lo
-                        for v, ok in ((lo + span * 0.5, True), (lo - span * 0.4 - 1, False), (hi + span * 0.4 + 1, False)):
+                        for v, ok in ((lo + span * 0.5, True), (lo - span * 0.4 - 1, False), (hi + span * 0.4 + 1, False),
+                                      (lo + span * 0.02, True), (hi - span * 0.02, True)):
                             rr = cl.request(f'change {spec["name"]}:{exp} {json.dumps(v)}', timeout=60)
                             probes.append((spec['name'], p['name'], v, ok, rr[2].raw.decode('latin-1')[:160] if rr else None))
+                        # the same limits hold for a write from inside the node (another module, a command)
+                        mobj = node_modules[spec['name']]
+                        for v, ok in ((lo + span * 0.3, True), (lo - span * 0.1, False), (hi + span * 0.1, False)):
+                            try:
+                                getattr(mobj, 'write_' + p['name'])(v)
+                                txt = 'changed (internal write)'
+                            except Exception as ex:   # noqa
+                                txt = f'error {type(ex).__name__}: {ex}'[:160]
+                            probes.append((spec['name'], p['name'], v, ok, txt))
+                            sim.count('c10.internal-write-probe')
             cl.close()
             srv.secnode.shutdown_modules()
 
